@@ -447,9 +447,10 @@ namespace occa {
                                        const occa::json &props) const {
     assertInitialized();
 
+    // Same property layering as for kernels built from source
     return kernel(modeDevice->buildKernelFromBinary(filename,
                                                     kernelName,
-                                                    props));
+                                                    kernelProperties(props)));
   }
   //  |=================================
 
